@@ -56,6 +56,10 @@ def main():
         k = spec['k']
         out.write(json.dumps({'begin': k, 'pid': os.getpid()}) + '\n')
         out.flush()
+        if spec.get('copy_from'):
+            # the same path gets new content between two calls in this one process (nothing may be remembered per name)
+            import shutil
+            shutil.copyfile(spec['copy_from'], spec['image'])
         os.environ['AEGEAN_VERIF'] = '1'
         os.environ['AEGEAN_VERIF_BANE_LOG'] = spec['log']
         if spec.get('plan'):
